@@ -229,6 +229,9 @@ func newRaw(name string) (func() connect.Decompressor, func() connect.Compressor
 	case "toy":
 		return func() connect.Decompressor { ToyNew.Add(1); d := &toyDecomp{}; d.key = 0x5a; return d },
 			func() connect.Compressor { c := &toyComp{}; c.Reset(io.Discard); return c }
+	case "rle":
+		return func() connect.Decompressor { return &rleDecomp{} },
+			func() connect.Compressor { return &rleComp{w: io.Discard} }
 	}
 	panic("unknown compression " + name)
 }
@@ -255,6 +258,12 @@ func Decompress(name string, data []byte) ([]byte, error) {
 		_ = d.Reset(bytes.NewReader(data))
 		ToyResets.Add(-1)
 		return io.ReadAll(d)
+	case "rle":
+		d := &rleDecomp{}
+		if err := d.Reset(bytes.NewReader(data)); err != nil {
+			return nil, err
+		}
+		return io.ReadAll(d)
 	}
 	return nil, fmt.Errorf("unknown compression %q", name)
 }
@@ -274,6 +283,8 @@ func Compress(name string, data []byte) []byte {
 		c := &toyComp{}
 		c.Reset(&buf)
 		w = c
+	case "rle":
+		w = &rleComp{w: &buf}
 	default:
 		panic("unknown compression " + name)
 	}
@@ -281,3 +292,87 @@ func Compress(name string, data []byte) []byte {
 	_ = w.Close()
 	return buf.Bytes()
 }
+
+// ---- rle codec ----
+// A user-registered algorithm with an unbounded compression ratio (not part of
+// Universe): "RLE1" | (uvarint run length, byte)*. A megabyte of one byte is
+// seven bytes on the wire; the decompressor streams, so a receiver that bounds
+// what it reads never materialises more than it asked for.
+type rleComp struct {
+	w   io.Writer
+	buf []byte
+}
+
+func (c *rleComp) Reset(w io.Writer)           { c.w, c.buf = w, c.buf[:0] }
+func (c *rleComp) Write(p []byte) (int, error) { c.buf = append(c.buf, p...); return len(p), nil }
+func (c *rleComp) Close() error {
+	out := []byte("RLE1")
+	for i := 0; i < len(c.buf); {
+		j := i
+		for j < len(c.buf) && c.buf[j] == c.buf[i] {
+			j++
+		}
+		out = binary.AppendUvarint(out, uint64(j-i))
+		out = append(out, c.buf[i])
+		i = j
+	}
+	c.buf = c.buf[:0]
+	_, err := c.w.Write(out)
+	return err
+}
+
+type rleDecomp struct {
+	src  []byte
+	err  error
+	left uint64
+	b    byte
+}
+
+func (d *rleDecomp) Reset(r io.Reader) error {
+	raw, err := io.ReadAll(r)
+	d.src, d.err, d.left = nil, nil, 0
+	if err != nil {
+		return err
+	}
+	if len(raw) < 4 || string(raw[:4]) != "RLE1" {
+		return errors.New("rle: bad header")
+	}
+	d.src = raw[4:]
+	return nil
+}
+
+func (d *rleDecomp) Read(p []byte) (int, error) {
+	n := 0
+	for n < len(p) {
+		if d.left == 0 {
+			if d.err != nil {
+				break
+			}
+			if len(d.src) == 0 {
+				d.err = io.EOF
+				break
+			}
+			run, k := binary.Uvarint(d.src)
+			if k <= 0 || k >= len(d.src) || run == 0 {
+				d.err = errors.New("rle: corrupt run")
+				break
+			}
+			d.left, d.b, d.src = run, d.src[k], d.src[k+1:]
+		}
+		m := uint64(len(p) - n)
+		if m > d.left {
+			m = d.left
+		}
+		for i := uint64(0); i < m; i++ {
+			p[n+int(i)] = d.b
+		}
+		n += int(m)
+		d.left -= m
+	}
+	if n == 0 && d.err != nil {
+		return 0, d.err
+	}
+	return n, nil
+}
+
+func (d *rleDecomp) Close() error { return nil }
